@@ -3,6 +3,7 @@ package main
 import (
 	"verif/core"
 	_ "verif/props/c01"
+	_ "verif/props/c06"
 	_ "verif/props/c07"
 	_ "verif/props/c08"
 	_ "verif/props/c16"
